@@ -8,6 +8,8 @@ let n_of_int (i : int) : n = if i = 0 then N0 else Npos (pos_of_int i)
 let rec int_of_pos = function XH -> 1 | XO p -> 2 * int_of_pos p | XI p -> 2 * int_of_pos p + 1
 let int_of_n = function N0 -> 0 | Npos p -> int_of_pos p
 
+let words s = List.filter (fun x -> x <> "") (String.split_on_char ' ' s)
+
 let byte_tbl : n array = Array.init 256 n_of_int
 
 let bytes_of_string (s : string) : n list =
@@ -210,6 +212,77 @@ let run_win toks =
     Buffer.contents buf
   | _ -> failwith "bad win case"
 
+(* ---- CFG ---- *)
+let untok t = if t = "_" then [] else bytes_of_hex t
+let tok b = match b with [] -> "_" | _ -> hex_of_bytes b
+let cfg_oracles e i =
+  let ex = if e = "-" then [] else List.map untok (String.split_on_char ',' e) in
+  let ips = if i = "-" then [] else List.map (fun t -> match String.split_on_char '=' t with
+      | [a; c] -> (untok a, untok c) | _ -> failwith "bad ip oracle") (String.split_on_char ';' i) in
+  ((fun s -> List.mem s ex), (fun s -> List.assoc_opt s ips))
+let cerr_text = function
+  | CMissing -> "missing" | CBadIp -> "badip" | CBadPort -> "badnum" | CNoDir -> "nodir" | CBadDup -> "badnum"
+  | CDupMax -> "dupmax" | CInvalidFlag -> "invalidflag" | CBadBlk -> "badnum" | CBadWs -> "badnum" | CBadTimeout -> "badnum"
+let b01 b = if b then "1" else "0"
+let run_cfg toks =
+  match toks with
+  | [_; cwd; e; i; args] ->
+    let cwd = untok cwd in
+    let (ex, pip) = cfg_oracles e i in
+    let argv = if args = "-" then [] else List.map untok (String.split_on_char ',' args) in
+    let dir d = if d = cwd && d <> [] then "CWD" else tok d in
+    (match parse_args ex pip cwd argv with
+     | COk c -> Printf.sprintf "ok ip=%s port=%s dir=%s rdir=%s sdir=%s single=%s ro=%s dup=%s over=%s clean=%s"
+                  (tok c.c_ip) (dec_of_n c.c_port) (dir c.c_dir) (dir c.c_rdir) (dir c.c_sdir)
+                  (b01 c.c_single) (b01 c.c_ro) (dec_of_n c.c_dup) (b01 c.c_over) (b01 c.c_clean)
+     | CErr k -> "err " ^ cerr_text k
+     | CHelp -> "help")
+  | _ -> failwith "bad cfg case"
+let run_cfgperm toks =
+  match toks with
+  | [_; cwd; e; i; groups; perms] ->
+    let gs = if groups = "-" then [||] else Array.of_list (String.split_on_char '|' groups) in
+    String.concat " | " (List.map (fun perm ->
+      let parts = "tftpd" :: (if perm = "-" then [] else List.map (fun k -> gs.(int_of_string k)) (String.split_on_char '.' perm)) in
+      let args = String.concat "," (List.map (fun t -> if t = "tftpd" then hex_of_bytes (bytes_of_string "tftpd") else t) parts) in
+      run_cfg ["cfg"; cwd; e; i; args]) (String.split_on_char ';' perms))
+  | _ -> failwith "bad cfgperm case"
+
+(* C17 on implementation results: all orders give the same configuration, or all fail *)
+let mon_cfgperm impl =
+  let rs = List.map String.trim (String.split_on_char '|' impl) in
+  match rs with
+  | [] -> "fail:empty"
+  | r0 :: rest ->
+    let is_err r = String.length r >= 3 && String.sub r 0 3 = "err" in
+    if is_err r0 then (if List.for_all is_err rest then "pass" else "fail:error-depends-on-order")
+    else if List.for_all (fun r -> r = r0) rest then "pass" else "fail:configuration-depends-on-order"
+
+let mon_cfg_dup case impl =
+  (* every accepted vector satisfies the duplicate-packets bound, in every order that was run *)
+  let accepted r = String.length (String.trim r) >= 2 && String.sub (String.trim r) 0 2 = "ok" in
+  match words case with
+  | ["cfg"; _; _; _; args] ->
+    let argv = if args = "-" then [] else List.map untok (String.split_on_char ',' args) in
+    if accepted impl && not (okDupArgs argv) then "fail:duplicate-packets>=255-accepted" else "pass"
+  | ["cfgperm"; _; _; _; groups; _] ->
+    let argv = if groups = "-" then [] else List.concat_map (fun g -> List.map untok (String.split_on_char ',' g)) (String.split_on_char '|' groups) in
+    if List.exists accepted (String.split_on_char '|' impl) && not (okDupArgs argv) then "fail:duplicate-packets>=255-accepted" else "pass"
+  | _ -> "skip"
+
+let run_ccfg toks =
+  match toks with
+  | [_; _; e; i; args] ->
+    let (ex, pip) = cfg_oracles e i in
+    let argv = if args = "-" then [] else List.map untok (String.split_on_char ',' args) in
+    (match parse_client_args ex pip argv with
+     | COk c -> Printf.sprintf "ok ip=%s port=%s blk=%s ws=%s tmo=%s up=%s rdir=%s file=%s clean=%s"
+                  (tok c.k_ip) (dec_of_n c.k_port) (dec_of_n c.k_blk) (dec_of_n c.k_ws) (dec_of_n c.k_tmo)
+                  (b01 c.k_upload) (tok c.k_rdir) (tok c.k_file) (b01 c.k_clean)
+     | CErr k -> "err " ^ cerr_text k
+     | CHelp -> "help")
+  | _ -> failwith "bad ccfg case"
+
 (* ---- CODEC ---- *)
 let run_dec toks =
   match toks with
@@ -267,7 +340,6 @@ let run_lowersweep toks = match toks with
   | _ -> failwith "bad lowersweep case"
 
 (* ---- monitors on implementation traces: mon <TAB> prop <TAB> case <TAB> impl ---- *)
-let words s = List.filter (fun x -> x <> "") (String.split_on_char ' ' s)
 let verdict b = if b then "pass" else "fail"
 
 let rec drop_last = function [] -> [] | [_] -> [] | x :: r -> x :: drop_last r
@@ -391,6 +463,9 @@ let run_mon (line : string) : string =
      | _ -> (match words case with
              | "send" :: _ -> mon_send prop case impl
              | "recv" :: _ -> mon_recv prop case impl
+             | "cfgperm" :: _ -> if prop = "C17" then (match mon_cfgperm impl with "pass" -> mon_cfg_dup case impl | v -> v)
+                                 else if prop = "C16" then mon_cfg_dup case impl else "skip"
+             | "cfg" :: _ -> if prop = "C17" || prop = "C16" then mon_cfg_dup case impl else "skip"
              | "win" :: _ -> if prop = "C18" then (if String.trim (run_win (words case)) = String.trim impl then "pass" else "fail:differs-from-the-verified-queue-specification") else "skip"
              | _ -> "skip"))
   | _ -> "fail:bad-monitor-line"
@@ -404,6 +479,9 @@ let run_line (line : string) : string =
   | "send" :: _ -> run_send toks
   | "recv" :: _ -> run_recv toks
   | "win" :: _ -> run_win toks
+  | "cfg" :: _ -> run_cfg toks
+  | "cfgperm" :: _ -> run_cfgperm toks
+  | "ccfg" :: _ -> run_ccfg toks
   | "dec" :: _ -> run_dec toks
   | "enc" :: _ -> run_enc toks
   | "opc" :: _ -> run_opc toks
